@@ -147,5 +147,44 @@ def run(chk, F, tier):
     # --write must be implemented by rename (otherwise in-place modification happens by some unseen API)
     chk.check(n_in_place >= 1, "R39b", "in-place-by-rename", "no fs::rename onto an input file found: in-place formatting "
               "is not implemented by atomic replace", main.loc())
+    # R39d: the temporary that is later renamed over the input starts empty
+    chk.rule("R39d", "every file opened for writing by luafmt starts empty or is new: File::create, or OpenOptions with truncate(true) / create_new(true) / "
+                     "append on a fresh file -- a write-only open of an existing leftover keeps its stale tail, which the rename then installs")
+    import dataflow
+    nopen = 0
+    for b in scope:
+        if b.crate != "luafmt":
+            continue
+        for bb, c in b.calls():
+            n = c.get("r") or c.get("f") or ""
+            if not n.endswith("OpenOptions::open"):
+                continue
+            nopen += 1
+            # option methods applied to the same builder
+            l = dataflow.operand_local(c["a"][0]) if c["a"] else None
+            seen, todo, opts = set(), [l], {}
+            while todo:
+                x = todo.pop()
+                if x is None or x in seen:
+                    continue
+                seen.add(x)
+                for r in dataflow.roots(b, x):
+                    if r[0] == "call":
+                        cc = b.blocks[r[1]][2][1]
+                        nn = cc.get("r") or cc.get("f") or ""
+                        if "OpenOptions::" in nn:
+                            m = nn.split("::")[-1]
+                            val = cc["a"][1][2] if len(cc["a"]) > 1 and cc["a"][1][0] == "k" else None
+                            opts[m] = val
+                            if cc["a"]:
+                                todo.append(dataflow.operand_local(cc["a"][0]))
+            writes = opts.get("write") in (True, "true", 1) or opts.get("append") in (True, "true", 1) or "write" in opts
+            safe = opts.get("truncate") in (True, "true", 1) or opts.get("create_new") in (True, "true", 1)
+            chk.check(not writes or safe, "R39d", "open@%s#%d" % (b.id.replace("luafmt::", ""), nopen),
+                      "%s opens a file for writing without truncate(true) or create_new(true) (options: %s): if the file already exists -- a temporary left by "
+                      "an interrupted run -- the new text is written over its beginning and the old tail survives; the following rename installs that mixture"
+                      % (b.id.split("::")[-1], sorted(opts)), b.loc(c["l"]), witness={"options": {k: str(v) for k, v in opts.items()}},
+                      sample={"rule": "R39d", "site": b.id, "verdict": "starts empty"})
+    chk.unit("OpenOptions::open sites in luafmt", nopen)
     chk.explanation = ("Backward provenance of the path argument of every truncating write / rename in the formatter crate "
                        "and luafmt (through closures, helpers and callers); CFG must-precede for write->flush->rename.")
